@@ -38,6 +38,10 @@ type TermSearcher struct {
 	reader      index.TermFieldReader
 	scorer      *scorer.TermQueryScorer
 	tfd         index.TermFieldDoc
+	// min is non-zero only when this searcher stands in for a whole
+	// disjunction (the "unadorned" optimization): it then has to keep
+	// reporting the minimum the disjunction was asked for
+	min int
 }
 
 func NewTermSearcher(ctx context.Context, indexReader index.IndexReader,
@@ -253,7 +257,7 @@ func (s *TermSearcher) Close() error {
 }
 
 func (s *TermSearcher) Min() int {
-	return 0
+	return s.min
 }
 
 func (s *TermSearcher) DocumentMatchPoolSize() int {
